@@ -4,6 +4,7 @@ mod cli;
 mod common;
 mod encoders;
 mod equiv;
+mod dynamic;
 mod gen;
 mod meta;
 mod readers;
@@ -75,6 +76,7 @@ fn main() {
         "reply" => satobj::run_reply(&mut rng, count, thorough, &extra, &mut out),
         "pipe" => satobj::run_pipe(&mut rng, count, thorough, &extra, &mut out),
         "cli" => cli::run(&mut rng, count, thorough, &extra, outp.as_deref(), &mut out),
+        "dynamic" => dynamic::run(&mut rng, count, thorough, &extra, &mut out),
         "static-multi" => statics::run(&mut rng, count, thorough, &statics::Cfg::from_extra(&extra, 3), &mut out),
         _ => {
             eprintln!("unknown mode {}", mode);
